@@ -70,11 +70,19 @@ def c03_scenarios():
     s.append(scenario("mint-mintbad", "C03", q, [m([8]), m([8, 1])], post=PROBE + [m([4, 4])]))
     s.append(scenario("mint-notify-polled", "C03", q + [{"op": "pollmint", "q": "mq1"}], [m([8]), {"op": "notify", "q": "mq1"}],
                       post=PROBE + [m([4, 4])]))
+    # the same quote paid twice (from outside and by an internal melt) while it is being minted: one issue per payment
+    fund13 = [{"op": "mintquote", "amt": 13}, {"op": "settle", "q": "mq1"}, {"op": "mint", "q": "mq1", "outs": [{"amt": 8}, {"amt": 4}, {"amt": 1}]}]
+    m2 = lambda outs: {"op": "mint", "q": "mq2", "outs": [{"amt": a} for a in outs]}
+    own = fund13 + [{"op": "mintquote", "amt": 8}, {"op": "meltquote", "kind": "int", "q": "mq2"}, {"op": "settle", "q": "mq2"}]
+    s.append(scenario("mint-meltinternal", "C03", own, [m2([8]), {"op": "melt", "q": "lq1", "ins": [{"p": "b1"}]}],
+                      post=PROBE + [m2([4, 4]), m2([2, 2, 4])]))
     lockq = [{"op": "mintquote", "amt": 8, "lock": "K1"}, {"op": "settle", "q": "mq1"}]
     s.append(scenario("mintlocked-mintnosig", "C03", lockq, [m([8]), dict(m([4, 4]), sig="none")]))
     if tier() == "thorough":
         s.append(scenario("mint-mint-mint", "C03", q, [m([8]), m([4, 4]), m([2, 2, 4])]))
         s.append(scenario("mint-mint-notify", "C03", q, [m([8]), m([4, 4]), {"op": "notify", "q": "mq1"}], post=PROBE + [m([2, 2, 4])]))
+        s.append(scenario("mint-mint-meltinternal", "C03", own, [m2([8]), m2([4, 4]), {"op": "melt", "q": "lq1", "ins": [{"p": "b1"}]}],
+                          post=PROBE + [m2([2, 2, 4]), m2([1, 1, 2, 4])]))
         s.append(scenario("mint-poll-notify", "C03", q, [m([8]), {"op": "pollmint", "q": "mq1"}, {"op": "notify", "q": "mq1"}],
                           post=PROBE + [m([4, 4])]))
     return s
